@@ -154,6 +154,7 @@ theorem step_measure {K : Nat} {async : Bool} {s t : PState} (h : Step K async s
   | read n h1 h2 => simp [measure]; omega
   | close => simp [measure]; omega
   | drain n _ h1 h2 => simp [measure]; omega
+  | drainAfterWait n _ h1 h2 => simp [measure]; omega
 
 /-- `n` steps -/
 inductive ReachN (K : Nat) (async : Bool) : PState → Nat → PState → Prop where
@@ -194,6 +195,43 @@ theorem async_progress {K : Nat} (hK : 1 ≤ K) (s : PState) (hd : ¬ Done s) : 
       by_cases h : err < K
       · exact ⟨_, .childErr h⟩
       · exact ⟨_, .drain err rfl (by omega) (Nat.le_refl _)⟩
+
+/-- Without the drainer: as long as everything the child will ever write to stderr fits into the pipe,
+its stderr writes never block. -/
+theorem sync_invariant {K : Nat} {s t : PState} (h : Step K false s t)
+    (hi : s.err + errOps s.prog ≤ K) : t.err + errOps t.prog ≤ K := by
+  cases h with
+  | childOut h => simpa [errOps] using hi
+  | childOutIgnored => simpa [errOps] using hi
+  | childOutKilled => simp [errOps] at hi ⊢; omega
+  | childErr h => simp [errOps] at hi ⊢; omega
+  | read n h1 h2 => simpa using hi
+  | close => simpa using hi
+  | drain n ha _ _ => cases ha
+  | drainAfterWait n _ h1 h2 => simp [errOps] at hi ⊢; omega
+
+theorem sync_progress_small {K : Nat} (hK : 1 ≤ K) (s : PState) (hi : s.err + errOps s.prog ≤ K)
+    (hd : ¬ Done s) : ∃ t, Step K false s t := by
+  obtain ⟨prog, out, err, closed⟩ := s
+  cases prog with
+  | nil =>
+    cases closed with
+    | true => exact absurd ⟨rfl, .inl rfl⟩ hd
+    | false =>
+      have : out ≠ 0 := fun h => hd ⟨rfl, .inr h⟩
+      exact ⟨_, .read out (by omega) (Nat.le_refl _)⟩
+  | cons b rest =>
+    cases b with
+    | false =>
+      cases closed with
+      | true => exact ⟨_, .childOutIgnored⟩
+      | false =>
+        by_cases h : out < K
+        · exact ⟨_, .childOut h⟩
+        · exact ⟨_, .read out (by omega) (Nat.le_refl _)⟩
+    | true =>
+      have : err < K := by simp [errOps] at hi; omega
+      exact ⟨_, .childErr this⟩
 
 theorem sync_fill (K : Nat) (j : Nat) (hj : j ≤ K) :
     Reach K false (initState (List.replicate (K + 1) true)) ⟨List.replicate (K + 1 - j) true, 0, j, false⟩ := by
